@@ -16,6 +16,14 @@
   proposed_fixes/D10-close-paused.diff applied (`stop()` wakes a paused thread, `run`
   re-tests `halting`).  The harness probes which variant the source under test follows.
 
+  `Cfg.fails` (by player index): played iterables that raise when asked for the sample after the
+  last one — equally: backend writes that raise after so many chunks.  At the granularity of this
+  system that is ONE step of the player: at `write` with no complete chunk left (`todo = []`, which
+  is `playChunks`: only the chunks completed before the exception) and `fail` set, the exception
+  leaves the loop of `run` through its `finally` clause and the thread goes on with its epilogue
+  (`finAcq`), as /repo does since dd9cc91.  Every invariant and liveness theorem of
+  `ALV.Lemmas.C17*` holds with it.
+
   Mathlib-free; executable.
 -/
 import ALV.Model.C08
